@@ -229,7 +229,7 @@ fn gen_float_limits64(r: &mut Rng) -> (Option<B64>, Option<B64>) {
 fn gen_scale_offset(r: &mut Rng) -> (B64, B64) {
     // (the last three are subnormal or next to it: legal, and not "normal" floating-point numbers)
     let scale = *r.pick(&[1.0f64, 0.001, 0.5, 0.0001, 2.0, 1e-6, 3.0, -0.25, 0.1, 1.0, 0.001, 0.01, 1e-310, 5e-324, 2.3e-308]);
-    let offset = *r.pick(&[0.0f64, 0.0, 100.0, -1.5, 1e6, 0.333]);
+    let offset = *r.pick(&[0.0f64, 0.0, 100.0, -1.5, 1e6, 0.333, -0.0]);
     (B64::of(scale), B64::of(offset))
 }
 
@@ -263,13 +263,16 @@ pub fn gen_dtype(r: &mut Rng, allowed: u8) -> DType {
 }
 
 pub const EXT_NS_POOL: [&str; 4] = ["ext", "nor", "a-b_c", "Q9"];
-pub const EXT_URL_POOL: [&str; 6] = [
+pub const EXT_URL_POOL: [&str; 8] = [
     "http://www.libe57.org/E57_EXT_surface_normals.txt",
     "http://example.org/e57/ext",
     "urn:sim:ext",
     "http://example.org/q?a=1",
     "http://example.org/q?a=1&b=2",
     "http://example.org/\"quoted\"/<x>'",
+    // text that looks like an entity or a character reference is plain text in a URL
+    "http://example.org/q?lang=en&amp;rev=2&lt;3",
+    "http://example.org/q?x=&#38;&apos;",
 ];
 pub const EXT_NAME_POOL: [&str; 8] = ["normalX", "classification", "some-thing_1", "A", "z9", "intensity", "cartesianX", "rowIndex"];
 
@@ -393,7 +396,7 @@ pub fn packet_capacity(proto: &[Rec]) -> usize {
 
 // ------------------------------------------------------------------ strings & metadata
 
-pub const STRING_POOL: [&str; 26] = [
+pub const STRING_POOL: [&str; 28] = [
     "scan",
     "Station 001",
     "",
@@ -421,6 +424,9 @@ pub const STRING_POOL: [&str; 26] = [
     // the characters on both sides of the surrogate gap and at the upper end of XML's Char range
     "edge\u{d7ff}\u{e000}",
     "\u{fffd}\u{10ffff}",
+    // more than two brackets in front of '>', and a run of them at the very end
+    "x]]]>y]]]]>",
+    "tail]]]",
 ];
 
 /// strings without the characters that need the CDATA-split repair
